@@ -23,6 +23,7 @@ EXPLANATION = (
     "constructors forward priority/frequency/start/end and default to a priority below System's. Decides the queue "
     "discipline for all histories; does not decide what user code does to fields directly.")
 EXPLANATION += (' Registry guard: the store systems[s.id] = s is dominated by `s.id not in systems`; presence of a system is never decided by the truth value of the system object (R-NONE); iterating the registry instead of the queue is a violation; a search helper that returns the first hit followed by insert at that index is the scan idiom.')
+EXPLANATION += (' System.__init__ stores `id` verbatim and reaches no write of the registry or queue; addSystem / removeSystem forward every argument to one method of the receiver.')
 ASSUMPTIONS = [
     "G6: user code reaches framework state only through public methods; priorities are not changed after registration",
     "list.insert/append/remove semantics and list iteration order (language facts)",
@@ -315,7 +316,7 @@ def run(cx: Cx):
     # registry discipline package-wide
     rsites = cx.effects.sites_of(RLOC)
     for s in rsites:
-        if s.owner_q in (add.qualname, rem.qualname):
+        if s.owned_within((add.qualname, rem.qualname)):
             continue
         v = s.ev.data.get('value')
         if s.kind == 'rebind' and s.owner_q == sm.qualname + '.__init__' and isinstance(v, Fresh) and v.kind == 'dict' \
@@ -389,6 +390,31 @@ def run(cx: Cx):
                          f"System.__init__ does not store its 'priority' parameter unchanged in the field 'priority' (found "
                          f"{[repr(e.data.get('value')) for e in st_]}): systems declared with distinct priorities can end up level, and "
                          f"equal-priority systems run in registration order instead", where=cx.where(si))
+    # ... under the identifier it was given, as given: the registry is keyed by `s.id` and remove_system by the caller's key - an id
+    # normalised on the way in (str(id)) is registered under a key the caller does not hold (a `(str, Enum)` member)
+    for p in cx.walker.paths(si, WalkOptions(unroll=1)):
+        st_ = [e for e in p.events if e.kind == 'store' and e.data.get('attr') == 'id']
+        if len(st_) == 1 and st_[0].data.get('value') == Sym('id'):
+            cx.ok('R-FWD', 'System.id := parameter id', where=cx.where(si, st_[0].line), function=si.qualname)
+        else:
+            cx.violation('R-FWD', si.qualname, 'id-field-from-parameter',
+                         f"System.__init__ does not store its 'id' parameter unchanged in the field 'id' (found "
+                         f"{[repr(e.data.get('value')) for e in st_]}): the system is registered under another key than the one its "
+                         f"owner uses to remove it", where=cx.where(si))
+    # ... and building a system object registers and removes nothing: the constructor (and the property setters it goes through)
+    # writes the new object only - a registered system with the same id is not evicted by an object that was merely constructed
+    regw = [(w, ch) for w, ch in cx.effects.trans_writes(si) if w.loc in ((sm.qualname, 'systems'), (sm.qualname, 'execution_queue'))]
+    if regw:
+        w, ch = regw[0]
+        cx.violation('R-DISC', si.qualname, 'constructing-a-system-registers-nothing',
+                     f"System.__init__ reaches a write of {w.loc[1]} ({w.describe()} via {' -> '.join(ch)}): constructing a second object "
+                     f"with a registered id changes the registry and the queue although the registration that follows is rejected",
+                     where=w.where)
+    else:
+        cx.ok('R-DISC', 'System.__init__ writes neither the registry nor the queue', where=cx.where(si), function=si.qualname)
+    # the deprecated spellings are the documented operations (addSystem must reject what add_system rejects)
+    from .common import check_deprecated_aliases_forward
+    check_deprecated_aliases_forward(cx, sm.qualname, only=('addSystem', 'removeSystem'))
     sys_default = const_default(cx, cx.fn(sysinit), 'priority')
     for c in ('Collector', 'AgentCollector', 'FileCollector'):
         check_forwarding_chain(cx, COLL + c, ['priority', 'frequency', 'start', 'end'], sysinit)
